@@ -462,7 +462,9 @@ func Run(sc *pw.Scenario) *simkit.Outcome {
 		}
 		r.ents, r.sizes, r.decOK = decode(r.data)
 		if !r.decOK {
-			out.Violate("C05", "slug-unreadable", "corrupt", fmt.Sprintf("run %d: Pack succeeded but its output is not a complete tar.gz stream", i))
+			for _, prop := range []string{"C05", "C20", "C02", "C16"} {
+				out.Violate(prop, "slug-unreadable", "corrupt", fmt.Sprintf("run %d: Pack succeeded but its output is not a complete, well-formed tar.gz stream", i))
+			}
 			continue
 		}
 		checkMeta(out, i, r)
